@@ -66,9 +66,9 @@ impl Fmt {
 fn pow5(e: usize) -> &'static BigU {
     static T: OnceLock<Vec<BigU>> = OnceLock::new();
     let t = T.get_or_init(|| {
-        let mut v = Vec::with_capacity(1300);
+        let mut v = Vec::with_capacity(1800);
         let mut cur = BigU::from_u64(1);
-        for _ in 0..1300 {
+        for _ in 0..1800 {
             v.push(cur.clone());
             cur.mul_small(5);
         }
